@@ -117,7 +117,7 @@ func init() {
 		}
 	}
 	c08 := []string{"srv-req-read-close", "srv-req-close", "srv-req-close-smallpipe", "srv-two-seq", "srv-pipelined", "srv-panics", "srv-half-then-close",
-		"srv-4bytes-then-close", "srv-stray-response", "srv-garbage", "srv-undecodable", "srv-toobig", "srv-req-then-garbage", "srv-slow-close", "srv-halfclose", "srv-3pipelined-close"}
+		"srv-4bytes-then-close", "srv-stray-response", "srv-hookfail-req", "srv-hookfail-2conn", "srv-hookok-seq", "srv-garbage", "srv-undecodable", "srv-toobig", "srv-req-then-garbage", "srv-slow-close", "srv-halfclose", "srv-3pipelined-close"}
 	c08multi := []string{"srv-2conn-good-bad", "srv-2conn-good-abrupt", "srv-3conn", "srv-4pipelined-read1-close"}
 	plans["C08"] = Plan{
 		Level: "model_checking",
@@ -127,6 +127,7 @@ func init() {
 		Quick:       cat(pb(100, B{{0, 0}, {1, 0}}, c08...), db(100, B{{2, 0}}, c08multi...), db(100, B{{0, 0}, {1, 0}}, "srv-size-history")),
 		Thorough:    cat(pb(1500, B{{1, 0}, {2, 0}}, c08...), db(1500, B{{3, 0}, {4, 0}}, c08...), db(1500, B{{2, 0}, {3, 0}}, c08multi...), pb(1500, B{{0, 0}}, c08multi...), db(1500, B{{2, 0}}, "srv-size-history"), pb(1500, B{{0, 0}}, "srv-size-history")),
 	}
+	c10mw := []string{"cli-par-2-libmw", "cli-par-3-libmw"}
 	c10 := []string{"cli-stray-requests", "cli-cancel-then-next", "cli-timeout-seq", "cli-par-2", "cli-par-cancel", "cli-par-3", "cli-negotiate-cancel"}
 	plans["C10"] = Plan{
 		Level: "model_checking",
@@ -134,8 +135,8 @@ func init() {
 			"with cancellers/timeouts firing at any point, within the bound per shard; distinct = distinct (scenario, outcome) classes. " + boundingNote,
 		Assumptions: []string{timeAssumption, netAssumption, fifoAssumption},
 		Keep:        hasPrefix("fail:misassociation", "fail:corrupt-response"),
-		Quick:       cat(db(100, B{{2, 0}, {3, 0}}, c10...), pb(100, B{{0, 0}, {1, 0}}, "cli-par-2")),
-		Thorough:    cat(db(1500, B{{3, 0}, {4, 0}}, c10...), pb(1500, B{{0, 0}, {1, 0}, {2, 0}}, c10...)),
+		Quick:       cat(db(100, B{{2, 0}, {3, 0}}, c10...), pb(100, B{{0, 0}, {1, 0}}, "cli-par-2"), db(100, B{{1, 0}, {2, 0}}, c10mw...)),
+		Thorough:    cat(db(1500, B{{3, 0}, {4, 0}}, c10...), pb(1500, B{{0, 0}, {1, 0}, {2, 0}}, c10...), db(1500, B{{3, 0}}, c10mw...), pb(1500, B{{0, 0}, {1, 0}}, c10mw...)),
 	}
 	c11 := []string{"clf-seq3", "clf-seq3-srvclose", "clf-seq3-dial", "clf-negotiate", "clf-par-2", "clf-close-only"}
 	plans["C11"] = Plan{
@@ -151,7 +152,7 @@ func init() {
 	}
 
 	c16one := []string{"shut-idle", "shut-half", "shut-fast", "shut-slow", "shut-smallpipe", "shut-hookfail", "shut-late"}
-	c16two := []string{"shut-2conn", "shut-2conn-idle-fast"}
+	c16two := []string{"shut-2conn", "shut-2conn-idle-fast", "shut-twice-slow", "shut-twice-fast", "shut-closeerr-slow", "shut-closeerr-fast"}
 	plans["C16"] = Plan{
 		Level: "model_checking",
 		Rule: "all schedules of Shutdown (free-running thread) against connections in each phase {connecting, idle, half request, in handler, response stuck in a 16-byte pipe, " +
